@@ -215,6 +215,9 @@ pub struct Program {
     pub cw_mask: u32,
     pub cw_seed: u64,
     pub frames: Vec<FrameSpec>,
+    /// preview frame (coded right after the image header; the decoder skips it)
+    #[serde(default)]
+    pub preview: Option<Box<FrameSpec>>,
 }
 
 /// Structural byte offsets of an encoded codestream (relative to codestream start).
@@ -222,6 +225,8 @@ pub struct Program {
 pub struct StreamMap {
     pub header_end: usize,
     pub frames: Vec<FrameMap>,
+    #[serde(default)]
+    pub preview: Option<FrameMap>,
     pub len: usize,
 }
 
@@ -239,7 +244,7 @@ impl StreamMap {
     /// Offsets worth cutting at (and around).
     pub fn structural_offsets(&self) -> Vec<usize> {
         let mut v = vec![0, 1, 2, self.header_end];
-        for f in &self.frames {
+        for f in self.preview.iter().chain(&self.frames) {
             v.push(f.start);
             v.push(f.toc_start);
             v.push(f.data_start);
@@ -623,7 +628,7 @@ impl Program {
         write_size_header(w, self.width, self.height, &self.size_form);
         // ImageMetadata
         w.bool(false); // all_default
-        let extra_fields = self.extra_fields || self.orientation != 1 || self.animation.is_some() || self.intrinsic_size.is_some();
+        let extra_fields = self.extra_fields || self.orientation != 1 || self.animation.is_some() || self.intrinsic_size.is_some() || self.preview.is_some();
         w.bool(extra_fields);
         if extra_fields {
             w.w((self.orientation - 1) as u64, 3);
@@ -631,7 +636,14 @@ impl Program {
             if let Some((iw, ih)) = self.intrinsic_size {
                 write_size_header(w, iw, ih, &SizeForm::Explicit);
             }
-            w.bool(false); // preview
+            w.bool(self.preview.is_some());
+            if self.preview.is_some() {
+                // PreviewHeader: explicit form (div8 = 0, ratio = 0)
+                w.bool(false);
+                w.u32([(1, 6), (65, 8), (321, 10), (1345, 12)], self.height.clamp(1, 64), None);
+                w.w(0, 3);
+                w.u32([(1, 6), (65, 8), (321, 10), (1345, 12)], self.width.clamp(1, 64), None);
+            }
             w.bool(self.animation.is_some());
             if let Some(a) = &self.animation {
                 w.u32([(100, 0), (1000, 0), (1, 10), (1, 30)], a.tps_num, None);
@@ -1075,6 +1087,13 @@ impl Program {
         self.write_image_header(&mut w);
         let mut out = w.finish();
         let mut map = StreamMap { header_end: out.len(), ..Default::default() };
+        if let Some(pf) = &self.preview {
+            // the decoder parses the preview frame with the main image header as context and skips
+            // header + TOC + total section size
+            let mut fm = FrameMap::default();
+            self.encode_frame(pf, &mut out, &mut fm)?;
+            map.preview = Some(fm);
+        }
         for f in &self.frames {
             let mut fm = FrameMap::default();
             self.encode_frame(f, &mut out, &mut fm)?;
